@@ -34,7 +34,7 @@ HEADERS = {
 }
 
 
-def run_cli(d, files, extra=()):
+def run_cli(d, files, extra=(), first=()):
     import functools
     import req_compile.cmdline as C
     out, err = io.StringIO(), io.StringIO()
@@ -46,7 +46,7 @@ def run_cli(d, files, extra=()):
     try:
         with contextlib.redirect_stdout(out), contextlib.redirect_stderr(err):
             try:
-                C.compile_main(list(files) + ["--find-links", "links", "--no-index"] + list(extra))
+                C.compile_main(list(files) + list(first) + ["--find-links", "links", "--no-index"] + list(extra))
             except SystemExit as ex:
                 code = ex.code if isinstance(ex.code, int) else 1
             except BaseException as ex:   # a traceback for the user
@@ -86,6 +86,7 @@ class CliFailures(Stream):
         elif k < 0.6:
             n = rng.choice(names)
             case["corrupt"] = [[n, v] for v in case["universe"][n]]
+            case["corrupt_kind"] = rng.choice(["not-a-zip", "unparsable-requirement"])
         elif k < 0.68:
             # an exact pin nobody offers, next to a bound it satisfies: unsatisfied - but not *impossible*
             n = rng.choice(names)
@@ -95,6 +96,14 @@ class CliFailures(Stream):
         elif k < 0.78:
             # unusable arguments: the command line must answer with a diagnostic and exit status 1
             case["usage"] = rng.choice(["missing-find-links", "missing-source", "no-repository", "missing-input", "missing-constraints"])
+        elif k < 0.9:
+            # one release comes as a source archive; another location, listed first, holds a file of the same name that cannot
+            # be analysed (a broken mirror copy): the readable copy is still on offer
+            n = rng.choice(names)
+            v = max(case["universe"][n], key=GL.V)
+            if not any("extra ==" in r for r in case["universe"][n][v]):
+                case["sdists"] = [[n, v]]
+                case["twin"] = [n, v]
         return case
 
     def impl(self, case):
@@ -107,7 +116,10 @@ class CliFailures(Stream):
         materialise(case, d)
         for n, v in case["corrupt"]:
             with open(os.path.join(d, "links", B.wheel_name(n, v)), "wb") as f:
-                f.write(b"PK\x03\x04 this is not a wheel")
+                if case.get("corrupt_kind") == "unparsable-requirement":
+                    f.write(B.wheel_bytes(n, v, requires=["python-dateutil (>=2.8.*)"]))    # a bound no PEP 508 parser accepts
+                else:
+                    f.write(b"PK\x03\x04 this is not a wheel")
         files = write_inputs(d, case["inputs"])
         usage = case.get("usage")
         if usage:
@@ -116,7 +128,16 @@ class CliFailures(Stream):
             r["region"] = "usage:" + usage
             r["mem_outcome"] = None
             return r
-        r = run_cli(d, files)
+        if case.get("twin"):
+            from rv.props.c07 import sdist_bytes
+            n, v = case["twin"]
+            plain = run_cli(d, files)
+            B.write_findlinks(os.path.join(d, "broken"), {"%s-%s.tar.gz" % (n.replace("-", "_"), v): sdist_bytes(n, v, [], analysable=False)})
+            GL.reset_caches()
+            r = run_cli(d, files, first=["--find-links", "broken"])
+            r["without_twin"] = {"code": plain["code"], "stdout": plain["stdout"]}
+        else:
+            r = run_cli(d, files)
         shutil.rmtree(d, ignore_errors=True)
         # the same universe through the in-memory repository, for the region
         run = SS.Run(dict(case, universe={n: vs for n, vs in case["universe"].items()}))
@@ -156,6 +177,8 @@ class CliFailures(Stream):
                 fl.append("diagnostic:" + kind)
         if case["corrupt"]:
             fl.append("corrupt-wheel")
+        if case.get("twin"):
+            fl.append("unreadable-same-named-archive-listed-first")
         if r["exception"]:
             fl.append("traceback:" + r["exception"])
         return fl
@@ -187,6 +210,8 @@ class CliFailures(Stream):
         fails = []
         if r["exception"]:
             return [("C09/cli-traceback-%s/%s" % (r["exception"], region), {"stderr": r["stderr"][-400:]})]
+        if r.get("without_twin") and r["without_twin"]["code"] == 0 and r["code"] != 0:
+            return [("C09/failure-although-a-readable-candidate-is-offered", {"stderr": r["stderr"][-400:], "twin": case["twin"]})]
         if region.startswith("usage:"):
             if r["code"] != 1:
                 return [("C09/cli-exit-status-%s/%s" % (r["code"], region), {"stderr": r["stderr"][-300:]})]
